@@ -8,18 +8,18 @@ pub mod m0_perm1 {
    use crate::common::*;
    ascent! {
       pub struct Prog;
-      relation r4(i64, i64, i64);
       relation r3(i64, i64, i64);
+      relation r0(i64);
+      relation r5(i64, i64);
       relation r1(i64, i64);
       relation r2(i64, i64, i64);
-      relation r5(i64, i64);
-      relation r0(i64);
-      r5((v0 + 1), v0) <-- for v0 in [3, 4], if (v0 < 6);
-      r2(v1, v0, v1) <-- if let Some(v0) = Some(4), r1(v1, v2);
-      r4(v0, v1, (v0 + 1)) <-- if let Some(v0) = None::<i64>, r3(v1, v0, v0), if (v0 < 6), r2(v0, (v0 + 0), v0);
-      r3(v0, v1, v2) <-- r5(v0, v1) if ((*v0) < 4), r1(v1, v2) if ((*v2) != (*v1));
-      r3(v0, (v0 + 1), v0) <-- let v0 = 2, if (v0 < 6), r1(v1, v0) if ((*v1) < 1);
+      relation r4(i64, i64, i64);
       r2(v0, v8, v9) <-- if let Some(v9) = Some(2), r1(v0, v1), r5(v1, v9) let v8 = ((*v0) + 1);
+      r2(v1, v0, v1) <-- if let Some(v0) = Some(4), if (v0 <= 6), r1(v1, v2);
+      r3(v0, v1, v2) <-- r5(v0, v1) if ((*v0) < 4), r1(v1, v2) if ((*v2) != (*v1));
+      r4(v0, v1, (v0 + 1)) <-- if let Some(v0) = None::<i64>, r2(v0, (v0 + 0), v0), r3(v1, v0, v0), if (v0 < 6), if (v0 <= 6);
+      r3(v0, (v0 + 1), v0) <-- let v0 = 2, if (v0 <= 6), if (v0 < 6), r1(v1, v0) if ((*v1) < 1);
+      r5((v0 + 1), v0) <-- for v0 in [3, 4], if (v0 < 6);
    }
    pub struct Inst { p: Prog, pool: Option<ascent::rayon::ThreadPool> }
    pub fn make(pool: Option<usize>) -> Box<dyn Driver> {
@@ -62,13 +62,13 @@ pub mod m2 {
       relation r3(i64, i64);
       relation r4(i64, i64);
       relation r5(i64, i64);
-      r2(v2) <-- r0(0, v0) if ((*v0) <= 6) let v1 = ((*v0) + 0), let v2 = 1;
+      r2(v2) <-- r0(0, v0) if ((*v0) <= 6) let v1 = ((*v0) + 0), let v2 = 1, if (v2 <= 6);
       r3(0, v1) <-- for v0 in 2..1, r2(v0) if (v0 < 6), r1(v1);
       r2(3) <-- r3(v0, v1);
       r4(v0, v1) <-- r0(v0, v1), r3(v0, v0), r0(v1, v2);
       r2(v0) <-- r5(v0, v1), r5(v0, v0), r5(v1, v2);
       r4(v2, v1) <-- if let Some(v0) = Some(0), r2(v1) if ((*v1) < 5), r1(v2) if ((*v2) != 3);
-      r3(v0, v2) <-- r3(0, 0), r4(0, v0) if ((*v0) <= 3), r3(((*v0) + 0), v1), if let Some(v2) = Some(((*v0) + 0));
+      r3(v0, v2) <-- r3(0, 0), r4(0, v0) if ((*v0) <= 3), r3(((*v0) + 0), v1), if let Some(v2) = Some(((*v0) + 0)), if (v2 <= 6);
       r5(((*v0) + 1), v0) <-- r5(v0, v1), if ((*v0) < 6);
    }
    pub struct Inst { p: Prog, pool: Option<ascent::rayon::ThreadPool> }
@@ -116,7 +116,7 @@ pub mod m3_ren0 {
       rel2_(x1_) <-- if let Some(x0_) = Some(4), rel1_(x1_), rel0_(x0_, x2_);
       rel3_(x0_, 1) <-- rel2_(x0_) if ((*x0_) != 1);
       rel4_(x0_, x0_) <-- rel3_(x0_, 3), if ((*x0_) <= 1), rel2_(x0_);
-      rel5_((x2_ + 1), x2_, 1) <-- rel4_(x0_, x1_) if ((*x0_) < 1) let x2_ = ((*x1_) + 0), rel3_(x2_, x0_), let x3_ = (*x1_), if (x2_ < 6);
+      rel5_((x2_ + 1), x2_, 1) <-- rel4_(x0_, x1_) if ((*x0_) < 1) let x2_ = ((*x1_) + 0), rel3_(x2_, x0_), let x3_ = (*x1_), if (x2_ < 6), if (x2_ <= 6);
       rel3_(x0_, x8_) <-- if let Some(x9_) = Some(2), rel0_(x0_, x1_), rel3_(x1_, x9_) let x8_ = ((*x0_) + 1);
       rel4_(x0_, 1) <-- rel0_(x0_, 3) if ((*x0_) != 6), let x1_ = (*x0_);
       rel0_(3, 0);
@@ -368,11 +368,11 @@ pub mod m11_perm0 {
    use crate::common::*;
    ascent! {
       pub struct Prog;
+      relation r1(i64, i64);
       relation r0(i64, i64);
       relation r2(i64, i64);
-      relation r1(i64, i64);
       r2(v0, v1) <-- r2(v0, v1), r0(v0, v0), r2(v1, v2);
-      r2(1, v0) <-- if let Some(v0) = Some(3), r1(v0, v1), r0(v0, v0), for v2 in 0..4;
+      r2(1, v0) <-- if let Some(v0) = Some(3), r1(v0, v1), r0(v0, v0), for v2 in 0..4, if (v0 <= 6);
    }
    pub struct Inst { p: Prog, pool: Option<ascent::rayon::ThreadPool> }
    pub fn make(pool: Option<usize>) -> Box<dyn Driver> {
